@@ -307,7 +307,7 @@ func representable(f []*Tree, s Spelling) bool {
 			ok = false
 		}
 		if s.Sharp && depth == 0 {
-			if strings.HasPrefix(n, " ") || strings.HasSuffix(n, " ") || strings.HasPrefix(n, "#") {
+			if strings.HasPrefix(n, " ") || strings.HasSuffix(n, " ") || (s.NoSpace && strings.HasPrefix(n, "#")) {
 				ok = false
 			}
 		}
@@ -338,6 +338,7 @@ var fmtCustom = Fmt4{"+->", ":   ", "+--", ":   "}
 var fmtEmpty = Fmt4{"", "", "", ""}
 var fmtMulti = Fmt4{"終", "　", "中", "｜"}
 var fmtLookalike = Fmt4{"- a", "  ", "* b", "# "}
+var fmtPercent = Fmt4{"%d", "%s ", "100%", "%%v"}
 
 func (f Fmt4) enc() string { return hxList(f[:]) }
 
